@@ -4,8 +4,8 @@ package main
 
 import (
 	"fmt"
-	"os"
 	"go/types"
+	"os"
 	"strings"
 
 	"golang.org/x/tools/go/ssa"
@@ -44,6 +44,9 @@ func (p *Prog) verifyFunction(f *ssa.Function, c *Contract) (res *FnResult) {
 	ex.contract = c
 	ex.top = true
 	ex.skipSafety = c.NoSafety
+	if len(c.SafetyProps) > 0 && q.curProp != "" && !hasProp(c.SafetyProps, q.curProp) {
+		ex.skipSafety = true
+	}
 	for g := range p.contracts.GhostNames {
 		q.so.keySort["GH:"+g] = arrSort(sInt, sInt)
 	}
